@@ -4,6 +4,7 @@ every claimed check (quick tier), expects all of them to stay green, and reverts
 Prints one JSON line per rewrite."""
 import sys, os, json, subprocess, glob
 ROOT = os.path.dirname(os.path.dirname(os.path.abspath(__file__)))
+REPO = os.environ.get('VERIF_REPO', '/repo')      # the copy of the repository the checks are pointed at
 def sh(cmd, cwd=None, timeout=3000):
     e = dict(os.environ); e['CARGO_NET_OFFLINE'] = 'true'
     p = subprocess.run(cmd, shell=True, cwd=cwd, stdout=subprocess.PIPE, stderr=subprocess.STDOUT, timeout=timeout, env=e)
@@ -11,22 +12,22 @@ def sh(cmd, cwd=None, timeout=3000):
 def main():
     names = sys.argv[1:] or sorted(os.path.basename(f)[:-5] for f in glob.glob(os.path.join(ROOT, 'harmless', '*.diff')))
     props = [c['property_id'] for c in json.load(open(os.path.join(ROOT, 'MANIFEST.json')))['checks']]
-    rc, out = sh('git -C /repo status --porcelain')
+    rc, out = sh('git -C %s ' % REPO + 'status --porcelain')
     assert out.strip() == '', '/repo not clean: ' + out
     for name in names:
-        rc, out = sh('git -C /repo apply %s' % os.path.join(ROOT, 'harmless', name + '.diff'))
+        rc, out = sh('git -C %s ' % REPO + 'apply %s' % os.path.join(ROOT, 'harmless', name + '.diff'))
         if rc != 0:
             print(json.dumps({'name': name, 'error': out[-300:]})); continue
         res = {}
         try:
-            rc, out = sh('cargo test --offline 2>&1 | grep -E "^test result" | head -3', cwd='/repo')
+            rc, out = sh('cargo test --offline 2>&1 | grep -E "^test result" | head -3', cwd=REPO)
             suite = 'FAILED' not in out and 'failed' not in out.replace('0 failed', '')
             for c in props:
                 rc, out = sh('./check %s --tier quick' % c, cwd=ROOT)
                 viol = [l for l in out.splitlines() if l.startswith('VIOLATION')]
                 res[c] = 'ok' if rc == 0 and not viol else (viol[0] if viol else 'exit %d' % rc)[:200]
         finally:
-            sh('git -C /repo checkout -- .')
+            sh('git -C %s ' % REPO + 'checkout -- .')
             sh('git checkout -- evidence', cwd=ROOT)
         print(json.dumps({'name': name, 'suite_green': suite, 'all_green': all(v == 'ok' for v in res.values()),
                           'alarms': {k: v for k, v in res.items() if v != 'ok'}}), flush=True)
